@@ -126,6 +126,13 @@ func runHand2(oc *fw.Outcome, cc ccase) {
 					struct{ what, src string }{"two-above/" + style, b.before + c + "\n" + c + "\n" + b.annot + "\n" + b.after},
 				)
 			}
+			// ordinary comments that start with an @word which is neither a scope nor a falco annotation
+			for di, dc := range []string{"// @author cdn-team", "# @see https://example.com/runbook", "/* @todo tidy this up */", "// @param none", "// @since 2024-01", "// @internal"} {
+				variants = append(variants,
+					struct{ what, src string }{fmt.Sprintf("doc-tag-above/%d", di), b.before + dc + "\n" + b.annot + "\n" + b.after},
+					struct{ what, src string }{fmt.Sprintf("doc-tag-below/%d", di), b.before + b.annot + "\n" + dc + "\n" + b.after},
+				)
+			}
 			variants = append(variants,
 				struct{ what, src string }{"blank-lines-above", b.before + "\n\n\n" + b.annot + "\n" + b.after},
 				struct{ what, src string }{"crlf", strings.ReplaceAll(plain, "\n", "\r\n")},
@@ -254,6 +261,79 @@ func runHand2(oc *fw.Outcome, cc ccase) {
 					oc.NonTrivialS(sb.String())
 					oc.Tag("hand2:macro-lookalike")
 				}
+			}
+		}
+	}
+
+	// ---- @process marks -------------------------------------------------------------------------
+	// "@process name" in a leading comment names a flow of the process document; ordinary comments in
+	// the same group of leading comments (above, below, other markers) leave the names alone
+	procTpl := "sub vcl_recv {\n  #FASTLY recv\n  set req.http.X-Class = \"other\";\n«»  // @process normalise-host\n«»  set req.http.X-Host = std.tolower(req.http.Host);\n«»  # @process classify\n«»  if (req.url ~ \"^/x\") {\n    set req.http.X-Class = \"x\";\n  }\n  log \"recv \" req.http.X-Host \" \" req.http.X-Class;\n" + tail
+	pparts := strings.Split(procTpl, "«»")
+	pplain := strings.Join(pparts, "")
+	pbase, pst0 := serveWith(&lintutil.MapResolver{Main: pplain, Budget: 10}, reqs)
+	oc.Evals++
+	if pst0 != "" {
+		oc.Inconc = append(oc.Inconc, "hand2/process: base: "+pst0)
+	} else {
+		for gi := 0; gi < len(pparts)-1; gi++ {
+			for _, c := range []string{"// Host names are case insensitive,", "# (only the demo area is classified so far)", "/* for the integration tests */", "// @author cdn-team", "//", "# process the request", "/* a\n   b */"} {
+				var sb strings.Builder
+				for i, pt := range pparts {
+					sb.WriteString(pt)
+					if i == gi {
+						sb.WriteString("  " + c + "\n")
+					}
+				}
+				fw.JournalS(sb.String())
+				cur, st1 := serveWith(&lintutil.MapResolver{Main: sb.String(), Budget: 10}, reqs)
+				oc.Evals++
+				key := fmt.Sprintf("hand2:process-mark/gap%d", gi)
+				var ds []string
+				if st1 == "" {
+					diffPaths(pbase, cur, "", &ds)
+				}
+				switch {
+				case st1 != "":
+					oc.Violate(key+"/"+strings.SplitN(st1, ":", 2)[0], "an ordinary comment next to a @process mark makes ServeHTTP fail: "+clip(st1, 200), map[string]any{"plain": pplain, "decorated": sb.String(), "comment": c})
+				case len(ds) > 0:
+					oc.Violate(key+"/differs", fmt.Sprintf("the ordinary comment %q next to a @process mark changes the process document at %s", c, clip(strings.Join(ds, " "), 160)), map[string]any{"plain": pplain, "decorated": sb.String(), "comment": c, "paths": ds})
+				default:
+					oc.NonTrivialS(sb.String())
+					oc.Tag("hand2:process-mark")
+				}
+			}
+		}
+	}
+
+	// ---- macro forms inside a user subroutine ----------------------------------------------------------
+	// Scoped snippets are expanded at the macro of the Fastly subroutine; a comment of any of these forms in
+	// a helper that vcl_recv calls does not expand them again
+	userTpl := "sub helper {\n«»  set req.http.Order = req.http.Order \"+helper\";\n}\nsub vcl_recv {\n  set req.http.Order = \"user\";\n  #FASTLY RECV\n  call helper;\n  log \"order=\" req.http.Order;\n" + strings.Replace(tail, "set obj.http.X-Added = req.http.X-Added;", "set obj.http.X-Added = req.http.Order;", 1)
+	uparts := strings.Split(userTpl, "«»")
+	uplain := strings.Join(uparts, "")
+	ubase, ust0 := serveWith(&lintutil.MapResolver{Main: uplain, Budget: 10}, reqs, context.WithSnippets(snips))
+	oc.Evals++
+	if ust0 != "" {
+		oc.Inconc = append(oc.Inconc, "hand2/macro-in-helper: base: "+ust0)
+	} else {
+		for _, c := range []string{"#FASTLY recv has already been expanded when this helper runs, see vcl_recv", "#FASTLY RECV", "#FASTLY recv", "// fastly recv", "# FASTLY RECV", "/* #FASTLY RECV */", "#FASTLY DELIVER"} {
+			src := uparts[0] + "  " + c + "\n" + uparts[1]
+			fw.JournalS(src)
+			cur, st1 := serveWith(&lintutil.MapResolver{Main: src, Budget: 10}, reqs, context.WithSnippets(snips))
+			oc.Evals++
+			var ds []string
+			if st1 == "" {
+				diffPaths(ubase, cur, "", &ds)
+			}
+			switch {
+			case st1 != "":
+				oc.Violate("hand2:macro-in-helper/"+strings.SplitN(st1, ":", 2)[0], "a comment in a helper subroutine makes ServeHTTP fail: "+clip(st1, 200), map[string]any{"plain": uplain, "decorated": src, "comment": c})
+			case len(ds) > 0:
+				oc.Violate("hand2:macro-in-helper/differs", fmt.Sprintf("the comment %q in a helper subroutine changes the process document at %s (the scoped snippets are expanded again)", c, clip(strings.Join(ds, " "), 160)), map[string]any{"plain": uplain, "decorated": src, "comment": c, "paths": ds})
+			default:
+				oc.NonTrivialS(src)
+				oc.Tag("hand2:macro-in-helper")
 			}
 		}
 	}
